@@ -128,6 +128,11 @@ func parseBitfieldOffset(spec string, width int) (offset int, valid bool) {
 			valid = false
 			return
 		}
+		if n < 0 {
+			// a bit offset can't be negative
+			valid = false
+			return
+		}
 		offset = int(n)
 	}
 	valid = true
